@@ -462,8 +462,10 @@ def main():
     os.makedirs(os.path.dirname(OUT), exist_ok=True)
     old = open(OUT).read() if os.path.exists(OUT) else None
     if old != txt:
-        with open(OUT, "w") as f:
+        _tmp = OUT + ".tmp%d" % os.getpid()
+        with open(_tmp, "w") as f:
             f.write(txt)
+        os.replace(_tmp, OUT)  # atomic: a concurrent coqc never sees a partial file
     return {"elements": len(A["elements"]), "metals": len(A["metals"]), "max_valances": len(A["maxval"]),
             "bond_lengths": len(A["pairs"]), "cov_radii": len(A["cov"]), "rel_tolerance": rel,
             "within": within_term, "planar_off": P["test"], "planar_normal": P["normal"], "planar_tol": pl_tol, "linear_cos": lin_ct, "sha256": sha}
